@@ -139,6 +139,16 @@ def main(argv=None):
         print(f"INFRA-ERROR: cannot import harness module for {pid}")
         return 2
     ctx = Ctx(pid, tier, seed, Rng(seed))
+    try:  # the code under test must be the tree QVERIF_REPO points at (default /repo)
+        import quantem
+        root = os.path.realpath(os.environ.get("QVERIF_REPO", "/repo"))
+        if not os.path.realpath(quantem.__file__).startswith(root + os.sep):
+            print(f"INFRA-ERROR: quantem imported from {quantem.__file__}, expected under {root}")
+            return 2
+    except Exception:
+        traceback.print_exc()
+        print("INFRA-ERROR: cannot import quantem")
+        return 2
 
     if args.replay:
         case = json.load(open(args.replay))
